@@ -172,9 +172,13 @@ pub fn run_bb(args: &Args) {
     sh.emit(
         "bb_const",
         &format!(
-            "\"empty\":{},\"full\":{},\"edges\":{},\"corners\":{},\"dark\":{},\"light\":{},\"files\":[{}],\"ranks\":[{}],\"adjacent\":[{}]",
+            "\"empty\":{},\"full\":{},\"edges\":{},\"corners\":{},\"dark\":{},\"light\":{},\"files\":[{}],\"ranks\":[{}],\"adjacent\":[{}],\"from_files\":[{}],\"from_ranks\":[{}],\"from_squares\":[{}],\"sq_bitboard\":[{}]",
             jbb(BitBoard::EMPTY), jbb(BitBoard::FULL), jbb(BitBoard::EDGES), jbb(BitBoard::CORNERS), jbb(BitBoard::DARK_SQUARES), jbb(BitBoard::LIGHT_SQUARES),
-            files.join(","), ranks.join(","), adj.join(",")
+            files.join(","), ranks.join(","), adj.join(","),
+            File::ALL.iter().map(|&f| jbb(BitBoard::from(f))).collect::<Vec<_>>().join(","),
+            Rank::ALL.iter().map(|&r| jbb(BitBoard::from(r))).collect::<Vec<_>>().join(","),
+            Square::ALL.iter().map(|&q| jbb(BitBoard::from(q))).collect::<Vec<_>>().join(","),
+            Square::ALL.iter().map(|&q| jbb(q.bitboard())).collect::<Vec<_>>().join(",")
         ),
     );
     // the bitboard! macro: the drawing (rank 8 first) next to the value it expands to
